@@ -12,7 +12,8 @@ res="$tag:"
 git apply $d/patch.diff || { echo "$res patch does not apply"; exit 1; }
 cargo build --offline -q 2>/dev/null && res="$res build=ok" || res="$res build=FAIL"
 cargo build --offline -q --features verif-hooks 2>/dev/null && res="$res build_hooks=ok" || res="$res build_hooks=FAIL"
-runtests() { cargo test --offline --lib 2>&1 | grep -E "^test result|^test .*FAILED" | tr '\n' ' '; }
+# the suite binds fixed UDP ports: run it in a private network namespace so that parallel runs do not clash
+runtests() { cargo test --offline --lib --no-run -q 2>/dev/null; unshare -rn sh -c 'ip link set lo up; cargo test --offline --lib 2>&1' | grep -E "^test result|^test .*FAILED" | tr '\n' ' '; }
 t=$(runtests)
 for k in 1 2 3; do
   if echo "$t" | grep -q "121 passed; 0 failed"; then break; fi
